@@ -62,6 +62,9 @@ def grad_cases():
                   ("AveragePowerConstraint", lambda: K.AveragePowerConstraint(0.7), cplx, (3, 12)), ("AveragePowerConstraint", lambda: K.AveragePowerConstraint(0.7), cplx, (1, 12)),
                   ("AveragePowerConstraint", lambda: K.AveragePowerConstraint(0.7), cplx, (2, 2, 3, 4)),
                   ("PAPRConstraint", lambda: K.PAPRConstraint(max_papr=2.5), cplx, (2, 16)),
+                  # tight limits: the clipping loop runs into its late, more aggressive iterations
+                  ("PAPRConstraint(tight)", lambda: K.PAPRConstraint(max_papr=1.2), cplx, (2, 16)), ("PAPRConstraint(tight)", lambda: K.PAPRConstraint(max_papr=1.1), cplx, (16,)),
+                  ("PAPRConstraint(tight)", lambda: K.PAPRConstraint(max_papr=1.05), cplx, (3, 10)),
                   ("PerAntennaPowerConstraint", lambda: K.PerAntennaPowerConstraint(uniform_power=1.5), cplx, (2, 3, 8))]
     cases.append(("PhaseNoiseChannel", lambda: C.PhaseNoiseChannel(phase_noise_std=0.2), True, (2, 10)))
     return cases
